@@ -121,12 +121,23 @@ func c03Guard(p *Program, r *Report) {
 	}
 	env := fn.Params[1]
 	dl := map[ssa.Instruction]ssa.Value{}
-	for _, ts := range p.tellSites(fn) {
-		if isDeathLetterValue(ts.Message) {
-			dl[ts.In] = ts.Message
+	scanned := map[*ssa.Function]bool{}
+	scan := func(f *ssa.Function) {
+		if f == nil || scanned[f] {
+			return
+		}
+		scanned[f] = true
+		for _, ts := range p.tellSites(f) {
+			if isDeathLetterValue(ts.Message) {
+				dl[ts.In] = ts.Message
+			}
 		}
 	}
-	spec := guardSpec{
+	scan(fn)
+	var spec guardSpec
+	spec = guardSpec{
+		Descend: true,
+		Bind:    map[ssa.Value]ssa.Value{},
 		Atoms: func(in ssa.Instruction) (string, bool) {
 			if a := atomicCall(in); a != nil && a.Op == "Load" && a.Field == lc.State {
 				return "state", true
@@ -142,8 +153,9 @@ func c03Guard(p *Program, r *Report) {
 			return "", false
 		},
 		Event: func(in ssa.Instruction) string {
+			scan(in.Parent()) // an extracted reporting helper is scanned on first visit
 			if m, ok := dl[in]; ok {
-				if e := deathLetterEnvelope(m); e != nil && strip(e) == ssa.Value(env) {
+				if e := deathLetterEnvelope(m); e != nil && spec.resolve(e) == ssa.Value(env) {
 					return "deadletter(envelope)"
 				}
 				return "deadletter(other)"
@@ -152,7 +164,7 @@ func c03Guard(p *Program, r *Report) {
 		},
 		Classify: func(in ssa.Instruction) string {
 			if st, ok := in.(*ssa.Store); ok {
-				if f, _ := fieldAddr(st.Addr); f != nil && fieldVar(lc.Ctx, f.Name()) == f && strip(st.Val) == ssa.Value(env) {
+				if f, _ := fieldAddr(st.Addr); f != nil && fieldVar(lc.Ctx, f.Name()) == f && spec.resolve(st.Val) == ssa.Value(env) {
 					return "dispatch"
 				}
 			}
@@ -219,9 +231,13 @@ func c03SelfFeed(p *Program, r *Report) {
 		return
 	}
 	fn := lc.HandleEnvelop
-	g := p.ig(fn)
+	g := p.igx(fn) // an extracted single-call reporting helper stays part of the paths
 	n := 0
-	for _, ts := range p.tellSites(fn) {
+	var sites []tellSite
+	for _, f := range g.Fns {
+		sites = append(sites, p.tellSites(f)...)
+	}
+	for _, ts := range sites {
 		if !isDeathLetterValue(ts.Message) {
 			continue
 		}
